@@ -22,9 +22,9 @@ META = dict(
     explanation="symbolic execution of api.dump_one followed by api.load_one on the written text",
 )
 
-SIZES = dict(xyz=[1, 3, 1000], pdb=[1, 3, 1000, 12000], mol2=[1, 3, 1000], sdf=[1, 3, 100, 999], poscar=[1, 3, 12],
+SIZES = dict(fchk=[2], xyz=[1, 3, 1000], pdb=[1, 3, 1000, 12000], mol2=[1, 3, 1000], sdf=[1, 3, 100, 999], poscar=[1, 3, 12],
              cube=[1, 2], fcidump=[1, 2])
-VARIANTS = dict(xyz=["default", "columns"], pdb=["default", "full", "bonds", "star"], mol2=["default", "full", "bonds"],
+VARIANTS = dict(fchk=["wf-own", "wf-horton2", "wf-revflip", "uhf", "rohf", "post", "corenums", "bare", "geom", "nomo"], xyz=["default", "columns"], pdb=["default", "full", "bonds", "star"], mol2=["default", "full", "bonds"],
                 sdf=["default", "bonds"], poscar=["lower"], cube=["111", "234", "117"], fcidump=["sym"])
 
 
@@ -38,7 +38,7 @@ def jobs(tier, prop="C02", M="harness.rt"):
                 if variant == "star" and n != 3:
                     continue
                 for policy in ("fit", "touch"):
-                    if policy == "touch" and (n > 3 or fmt in ("fcidump",)):
+                    if policy == "touch" and (n > 3 or fmt in ("fcidump", "fchk")):
                         continue
                     if variant == "star":
                         n = 14
